@@ -295,6 +295,8 @@ def recvRecvTrailers (s : Streams) (id : Nat) (h : HeadersIn) : Streams × Excep
   | (st', .ok _) =>
     let s := s.modStream id fun st => { st with state := st' }
     if !(s.stream id).ensureContentLengthZero then (s, .error (PErr.libraryReset (s.stream id).id PROTOCOL_ERROR))
+    -- trailers beyond SETTINGS_MAX_HEADER_LIST_SIZE were truncated while decoding: never delivered
+    else if h.isOverSize then (s, .error (PErr.libraryReset (s.stream id).id PROTOCOL_ERROR))
     else
       let s := s.modStream id fun st => { st with pendingRecv := st.pendingRecv ++ [.trailers h.fields] }
       (s.modStreamW id Stream.notifyRecv, .ok ())
